@@ -106,13 +106,16 @@ def run(ctx, col: Collector):
         col.floor('C13-sink', 'DBML free-text sinks', len(sinks), 6)
         sanit_cache: Dict[str, object] = {}
 
-        def sanitiser_named(fn: FuncInfo, name: str):
+        def sanitiser_named(fn: FuncInfo, name: str, at: Optional[Sink] = None):
             f = ti.resolve_func(fn, name)
             if f is None:
                 return None, None
-            if f.id not in sanit_cache:
-                sanit_cache[f.id] = sanitiser_of(idx, f)
-            return f, sanit_cache[f.id]
+            # the helper's rewriting may depend on constants passed at this call site (the delimiter it must escape)
+            consts = ti._const_args(at, name, f) if at is not None else {}
+            key = (f.id, tuple(sorted((k_, repr(v_)) for k_, v_ in consts.items())))
+            if key not in sanit_cache:
+                sanit_cache[key] = sanitiser_of(idx, f, consts)
+            return f, sanit_cache[key]
         judged_sanitisers: Set[str] = set()
         seen_cons: Set[str] = set()
         groups: Dict[str, List[Tuple[Sink, str]]] = {}
@@ -153,13 +156,13 @@ def run(ctx, col: Collector):
                 for w in wr:
                     if w.startswith('.'):
                         continue
-                    fdef, san = sanitiser_named(f.fn, w)
+                    fdef, san = sanitiser_named(f.fn, w, f)
                     if san is None:
-                        fdef, san = sanitiser_named(s.fn, w)
+                        fdef, san = sanitiser_named(s.fn, w, s)
                     if san is not None:
                         found = (fdef, san)
                 qc = q[0]
-                npass = sum(1 for w in wr if not w.startswith('.') and sanitiser_named(f.fn, w)[1] is not None)
+                npass = sum(1 for w in wr if not w.startswith('.') and sanitiser_named(f.fn, w, f)[1] is not None)
                 if npass > 1:
                     col.bad('C13-sink', cons + ':escaped-once', f'{label} passes {npass} escaping helpers ({[w for w in wr if not w.startswith(".")]}) before it is written by '
                             f'{f.fn.qualname}: escapes are escaped again, so the reader gets backslashes that were not in the text (or a literal that '
@@ -182,8 +185,8 @@ def run(ctx, col: Collector):
                               'the triple-quote terminator and single apostrophes are escaped inside the multi-line form',
                               f'inside {q}..{q} {fdef.qualname} does not escape both \'\'\' and lone apostrophes ({san.escapes}): a text ending in an apostrophe merges with '
                               f'the terminator', node=f.node, file=f.fn.file)
-                if fdef.id not in judged_sanitisers:
-                    judged_sanitisers.add(fdef.id)
+                if (fdef.id, tuple(sorted(san.escapes))) not in judged_sanitisers:
+                    judged_sanitisers.add((fdef.id, tuple(sorted(san.escapes))))
                     col.check(san.escapes.get('\\') == '\\\\', 'C13-sanitiser', f'{fdef.qualname}:backslash',
                               f'{fdef.qualname} doubles backslashes (the reader removes one level)',
                               f'{fdef.qualname} escapes {sorted(san.escapes)} but not the escape character itself: the reader treats a backslash in the written '
